@@ -6,6 +6,7 @@ import (
 	"strconv"
 	"strings"
 
+	"github.com/boombuler/barcode/aztec"
 	"github.com/boombuler/barcode/datamatrix"
 	"github.com/boombuler/barcode/qr"
 	"github.com/boombuler/barcode/utils"
@@ -78,6 +79,20 @@ func init() {
 	register("gfop", func(a []string) string {
 		f := getField(a[0], a[1], a[2])
 		x, y := atoi(a[3]), atoi(a[4])
+		return strconv.Itoa(f.Multiply(x, y)) + " " + safeDiv(f, x, y) + " " + strconv.Itoa(f.Invers(x)) + " " + strconv.Itoa(f.AddOrSub(x, y))
+	})
+	// gfoplib <qr|dm|az4|az6|az8|az10|az12> a b : the field object the LIBRARY itself constructs
+	register("gfoplib", func(a []string) string {
+		var f *utils.GaloisField
+		switch a[0] {
+		case "qr":
+			f = qr.VerifC17Encoder().VerifGF()
+		case "dm":
+			f = datamatrix.VerifC17Encoder().VerifGF()
+		default:
+			f = aztec.VerifC17Field(atoi(a[0][2:]))
+		}
+		x, y := atoi(a[1]), atoi(a[2])
 		return strconv.Itoa(f.Multiply(x, y)) + " " + safeDiv(f, x, y) + " " + strconv.Itoa(f.Invers(x)) + " " + strconv.Itoa(f.AddOrSub(x, y))
 	})
 	// poly pp size base op p q
